@@ -189,7 +189,9 @@ type TSDDecoder struct {
 	buf       *bufioutil.Buffer
 	startTime uint16
 	endTime   uint16
-	idx       uint16
+	// number of slots read so far: up to endTime-startTime+1, which does not fit uint16 for a block
+	// that ends at slot 65535
+	idx uint32
 }
 
 // NewTSDDecoder create tsd decoder instance
@@ -257,7 +259,7 @@ func (d *TSDDecoder) EndTime() uint16 {
 
 // Next returns if has next slot data
 func (d *TSDDecoder) Next() bool {
-	if d.startTime+d.idx <= d.endTime {
+	if uint32(d.startTime)+d.idx <= uint32(d.endTime) {
 		d.idx++
 		return true
 	}
@@ -269,14 +271,14 @@ func (d *TSDDecoder) Seek(slot uint16) bool {
 	if slot > d.endTime || slot < d.startTime {
 		return false
 	}
-	for d.idx+d.startTime < slot {
-		if d.HasValueWithSlot(d.idx + d.startTime) {
+	for d.idx+uint32(d.startTime) < uint32(slot) {
+		if d.HasValueWithSlot(uint16(d.idx + uint32(d.startTime))) {
 			_ = d.Value()
 		} else {
 			return false
 		}
 	}
-	return d.idx+d.startTime == slot
+	return d.idx+uint32(d.startTime) == uint32(slot)
 }
 
 // HasValue returns slot value if exist
@@ -297,7 +299,7 @@ func (d *TSDDecoder) HasValueWithSlot(slot uint16) bool {
 	if slot < d.startTime || slot > d.endTime {
 		return false
 	}
-	if slot == d.idx+d.startTime {
+	if uint32(slot) == d.idx+uint32(d.startTime) {
 		d.idx++
 		return d.HasValue()
 	}
@@ -313,7 +315,7 @@ func (d *TSDDecoder) GetValue(slot uint16) (float64, bool) {
 }
 
 func (d *TSDDecoder) Slot() uint16 {
-	return d.startTime + d.idx - 1
+	return uint16(uint32(d.startTime) + d.idx - 1)
 }
 
 // Value returns value of time slot
